@@ -44,6 +44,20 @@ type hk struct{}
 
 func (hk) Run(e *zerolog.Event, l zerolog.Level, m string) { e.Bool("hooked", true) }
 
+// dropHook discards the events whose message is "drop"; yieldHook is user code in a hook that may block or be preempted.
+// Registered in this order before hk: a discarded event still runs the later hooks, and is never written.
+type dropHook struct{}
+
+func (dropHook) Run(e *zerolog.Event, l zerolog.Level, m string) {
+	if m == "drop" {
+		e.Discard()
+	}
+}
+
+type yieldHook struct{}
+
+func (yieldHook) Run(e *zerolog.Event, l zerolog.Level, m string) { vsched.Gate("user.hook", nil, nil) }
+
 func logOne(l *zerolog.Logger, g, k int, shape string) {
 	switch shape {
 	case "ctxobj": // a child logger derived on this goroutine, with a user marshaler in its context
@@ -72,6 +86,10 @@ func logOne(l *zerolog.Logger, g, k int, shape string) {
 	case "fobj":
 		e = e.Fields(map[string]interface{}{"fo": objM{g, k}})
 	}
+	if shape == "drop" {
+		e.Msg("drop")
+		return
+	}
 	e.Msg("m")
 }
 
@@ -93,6 +111,7 @@ func (o objM) MarshalZerologObject(e *zerolog.Event) {
 
 type recW struct {
 	expect map[string][]byte
+	nw     map[string]int // writes the same call chain makes when run alone (0: the event is discarded by a hook)
 }
 
 func (w *recW) Write(p []byte) (int, error) {
@@ -117,7 +136,7 @@ func play(sc Script) bool {
 	vsched.Reset()
 	vsync.PoolGates = true
 	emit(ev{"a": "Reset", "id": sc.ID, "sync": sc.Sync, "wrap": sc.Wrap, "G": len(sc.Shapes)})
-	w := &recW{expect: map[string][]byte{}}
+	w := &recW{expect: map[string][]byte{}, nw: map[string]int{}}
 	mk := func(dst io.Writer) []*zerolog.Logger {
 		base := zerolog.New(dst)
 		ls := make([]*zerolog.Logger, len(sc.Shapes))
@@ -127,7 +146,7 @@ func play(sc Script) bool {
 			case 1:
 				l = base.With().Int("child", g).Logger()
 			case 2:
-				l = base.Hook(hk{})
+				l = base.Hook(dropHook{}, yieldHook{}, hk{})
 			}
 			ll := l
 			ls[g] = &ll
@@ -140,6 +159,7 @@ func play(sc Script) bool {
 			var b bytes.Buffer
 			logOne(mk(&b)[g], g+1, k+1, sh)
 			w.expect[fmt.Sprintf("%d/%d", g+1, k+1)] = append([]byte(nil), b.Bytes()...)
+			w.nw[fmt.Sprintf("%d/%d", g+1, k+1)] = bytes.Count(b.Bytes(), []byte("\n"))
 		}
 	}
 	var dst io.Writer = w
@@ -165,7 +185,7 @@ func play(sc Script) bool {
 		gs[name] = vsched.Go(name, func() {
 			for k, sh := range sc.Shapes[g] {
 				vsched.Gate("l.event", nil, nil)
-				emit(ev{"a": "EvStart", "g": g + 1, "k": k + 1, "shape": sh})
+				emit(ev{"a": "EvStart", "g": g + 1, "k": k + 1, "shape": sh, "nw": w.nw[fmt.Sprintf("%d/%d", g+1, k+1)]})
 				logOne(loggers[g], g+1, k+1, sh)
 				emit(ev{"a": "EvEnd", "g": g + 1, "k": k + 1})
 			}
